@@ -212,6 +212,7 @@ macro_rules! c05_select_arr {
 }
 c05_select_arr!(c05_select_arr_gt, OP_GT, |e: i64, c: i64| e > c);
 c05_select_arr!(c05_select_arr_eq, OP_EQ, |e: i64, c: i64| e == c);
+c05_select_arr!(c05_select_arr_lt, OP_LT, |e: i64, c: i64| e < c);
 c05_select_arr!(c05_select_arr_lte, OP_LTE, |e: i64, c: i64| e <= c);
 c05_select_arr!(c05_select_arr_ne, OP_NE, |e: i64, c: i64| e != c);
 
